@@ -235,11 +235,18 @@ func WorkerMain(args []string) int {
 	runtime.LockOSThread()
 	w := &worker{budget: ck.BudgetCPU, mainTid: syscall.Gettid()}
 	if !ck.Race {
+		// the collector is kept out of the way: an allocating library call would otherwise be made to "assist" in marking
+		// the worker's whole heap - the harness's hash sets and reference caches - and on an oversubscribed machine, where
+		// the background workers do not get scheduled, that assist work (charged to the library's thread) was seen to turn
+		// 0.1 s of parsing into 5 s. With a soft limit of 1.5 GiB most workers never collect at all; the heap watchdog
+		// (3 GiB of live objects) still catches a runaway allocation.
+		debug.SetGCPercent(-1)
+		debug.SetMemoryLimit(1536 << 20)
 		threadClock = true
 		runtime.GOMAXPROCS(4) // one case at a time: no use for 16 Ps, whose idle GC workers only add to the machine's load
 	}
 	if w.budget == 0 {
-		w.budget = 5 * time.Second
+		w.budget = 20 * time.Second
 	}
 	if raceEnabled {
 		// process-wide clock (see libclock.go): 16 goroutines inside the library burn 16 CPU-seconds per second when they
